@@ -2,6 +2,6 @@
 # Refresh the frozen translations used as neutral Gen files (run after the agreement proofs were adapted to a
 # changed /repo): translation of /repo's current tree with tie_available = false.
 cd "$(dirname "$0")" || exit 1
-for f in DagBranchCode DagTablesCode DagSkipCode; do
+for f in DagBranchCode DagTablesCode DagSkipCode ChanCode; do
   sed 's/^Definition tie_available : bool := true\./Definition tie_available : bool := false./' ../../../coq/Gen/$f.v > $f.v
 done
